@@ -93,6 +93,9 @@ fn finish_hash(sim: &Sim, steps: &[Step], stop: &Option<Stop>) -> u64 {
 pub fn run_one(prop: Prop, seed: u64, run: u64, known: &[String]) -> RunResult {
     let mut r = Rng::new(run_seed(seed, run));
     let cfg = draw_cfg(&mut r, prop);
+    if r.pct(25) {
+        r.name_pool = r.range(1, 4) as u8;
+    }
     let mut sim = Sim::new(cfg.clone(), known.to_vec());
     let mut wl = Workload::new();
     let mut steps = Vec::with_capacity(cfg.n_steps);
